@@ -154,8 +154,22 @@ def explore(chk):
             vtt = pycaption.WebVTTWriter().write(cs)
         except Exception as e:
             chk.property_failure(dict(case, error=repr(e)[:300]), "a writer raised on a caption with balanced flat spans"); continue
+        # the same caption with a layout on the caption and on every node, written with inline positioning
+        from pcv import setbuild
+        lay = {"origin": ["10%", "70%"], "extent": ["80%", "20%"], "align": ["center", "bottom"]}
+        dnodes = []
+        for n in nodes:
+            if n[0] == "T": dnodes.append(["T", n[1], lay])
+            elif n[0] == "B": dnodes.append(["B", lay])
+            else: dnodes.append(["S", n[1], {k: True for k, v in zip(("italics", "bold", "underline"), n[2:5]) if v}, lay])
+        cs_pos = setbuild.build({"langs": [{"lang": "en-US", "caps": [{"start": 1000000, "end": 2500000, "nodes": dnodes, "layout": lay}]}]})
+        try:
+            dfxp_inline = pycaption.DFXPWriter(write_inline_positioning=True).write(cs_pos)
+        except Exception as e:
+            chk.property_failure(dict(case, error=repr(e)[:300]), "DFXPWriter(write_inline_positioning=True) raised on a positioned caption with balanced flat spans"); continue
         # ---- outputs: balance + flags
-        for name, doc, style, keep in (("dfxp", dfxp, dfxp_span_style, "i"), ("sami", sami, sami_span_style, "ibu")):
+        for name, doc, style, keep in (("dfxp", dfxp, dfxp_span_style, "i"), ("dfxp-inline-positioning", dfxp_inline, dfxp_span_style, "i"),
+                                       ("sami", sami, sami_span_style, "ibu")):
             frag = p_fragments(doc)
             frag = [f for f in frag if f.strip() not in ("&nbsp;", "")]
             got, bal = flags_of_markup(frag[0] if frag else "", style)
